@@ -190,6 +190,16 @@ check(
     "DESIGN.md section 3 / C14",
 )
 
+check(
+    "C01",
+    "model-based property testing with a ground-truth writer: exhaustive enumeration of reporters-db strings x minimal forms, all db examples and court strings, plus Hypothesis-sampled full forms; every expected value comes from the writer or from reporters-db/courts-db, none from eyecite",
+    "Exhaustive over the finite sub-domains (every plain-shape string in three minimal forms, every reporters-db "
+    "example, every parenthetical-safe court string) plus generated-input search over the component space of the "
+    "standard forms; the extraction must return exactly the written citation with the written components and offsets.",
+    "The writer's vocabulary bounds 'neutral prose'; preconditions of the statement (single pattern reading, documented terminators) are computed independently and counted when they exclude a case.",
+    "DESIGN.md section 3 / C01",
+)
+
 
 def build():
     all_ids = [f"C{i:02d}" for i in range(1, 21)]
